@@ -218,6 +218,76 @@ func c09Fatal(p *Prog, r *Report, e *engine) {
 		}, nil, edgesOf(fsFails), "with errorOnFSErrors a traversal error is returned wrapped", "with errorOnFSErrors set a traversal failure does not abort the walk (a nil or unrelated error is returned)")
 	}
 	r.Check(n > 0, "D1-fatal-on-request", hf.key+":errorOnFSErrors-under-fserr", p.Pos(hf.fn.Pos()), "errorOnFSErrors consulted when fserr != nil", "errorOnFSErrors is not consulted on the fserr != nil path")
+	// and no way around it: once fserr != nil, a return that does not carry fserr is reachable only
+	// through the errorOnFSErrors == false edge (a "some errors are expected" early return placed
+	// before the test would swallow the failure even when errors are fatal on request)
+	_, eoFails := guardEdges(hf.fn, condFieldBool("walkContext", "errorOnFSErrors"))
+	cut := edgesOf(fsFails)
+	for _, e2 := range eoFails {
+		cut[e2] = true
+	}
+	{
+		// search from the entry over (block, "a fserr != nil edge was taken") states, never taking a
+		// fserr == nil edge after that, never taking the errorOnFSErrors == false edge
+		holdSet := edgesOf(fsHolds)
+		failSet := edgesOf(fsFails)
+		swallow := func(in ssa.Instruction) bool {
+			ret, ok := in.(*ssa.Return)
+			if !ok {
+				return false
+			}
+			if isNilConst(retVal(ret, 0)) {
+				return true
+			}
+			for _, l := range errLeaves(retVal(ret, 0)) {
+				if l == ssa.Value(fserr) {
+					return false
+				}
+			}
+			return true
+		}
+		type st struct {
+			b    *ssa.BasicBlock
+			held int // 0: fserr not tested yet, 1: known non-nil, 2: known nil
+		}
+		seen := map[st]bool{}
+		work := []st{{hf.fn.Blocks[0], 0}}
+		var witness *ssa.BasicBlock
+		for len(work) > 0 && witness == nil {
+			x := work[len(work)-1]
+			work = work[:len(work)-1]
+			if seen[x] {
+				continue
+			}
+			seen[x] = true
+			if x.held == 1 && len(x.b.Instrs) > 0 && swallow(x.b.Instrs[len(x.b.Instrs)-1]) {
+				witness = x.b
+				break
+			}
+			for i, sc := range x.b.Succs {
+				e2 := Edge{x.b, i}
+				if cut[e2] && !failSet[e2] { // errorOnFSErrors == false edge
+					continue
+				}
+				h := x.held
+				switch {
+				case failSet[e2] && h == 1, holdSet[e2] && h == 2:
+					continue // contradicts what the path already knows about fserr
+				case failSet[e2]:
+					h = 2
+				case holdSet[e2]:
+					h = 1
+				}
+				work = append(work, st{sc, h})
+			}
+		}
+		site := hf.key + ":fserr-swallowed-only-when-not-fatal"
+		if witness == nil {
+			r.OK("D1-fatal-on-request", site, p.Pos(hf.fn.Pos()), "a traversal failure is dropped only on the errorOnFSErrors == false edge")
+		} else {
+			r.Fail("D1-fatal-on-request", site, p.Pos(witness.Instrs[len(witness.Instrs)-1].Pos()), "a traversal failure can be dropped (nil or unrelated error returned) on a path that never consulted errorOnFSErrors: with errors fatal on request the walk continues")
+		}
+	}
 	// non-fatal fserr path returns nil without touching d and without dispatch
 	for _, ed := range fsHolds {
 		hf.noPath("D1-fatal-only-on-request", "fserr-path-ends", edgeStart(ed), func(in ssa.Instruction) bool {
